@@ -4,10 +4,11 @@ package runner
 import (
 	"context"
 	"crypto/sha256"
-	"encoding/json"
 	"encoding/hex"
+	"encoding/json"
 	"fmt"
 	"hash/fnv"
+	"runtime"
 	"sort"
 	"strings"
 	"testing"
@@ -40,6 +41,7 @@ type Result struct {
 	Replies       map[int][]model.Packet `json:"-"` // per connection, packets the server wrote (tap-parsed, still obfuscated)
 	Tail          map[int][]byte         `json:"-"` // per connection, trailing bytes that do not form a packet
 	RC            []RCEvent              `json:"-"` // real-client observations
+	TapInputs     int                    `json:"tap_inputs"`
 	Loader        *LoaderResult          `json:"-"`
 	TapViol       []string               `json:"-"`
 }
@@ -198,6 +200,9 @@ func finish(s *sched) {
 			res.RC = append(res.RC, c.real.events...)
 		}
 	}
+	if s.p.Property == "C04" || s.p.Property == "C02" {
+		s.runTap()
+	}
 	res.Events = w.Events
 	res.Faults = w.Faults
 	res.Probes = w.Probes
@@ -233,6 +238,84 @@ func bucket(n int64) int {
 		return 7
 	default:
 		return 8
+	}
+}
+
+// runTap is the passive tap (DESIGN 3.6): everything observed on the simulated wire -
+// whole packets, the partial packets that exist at segment boundaries and after
+// truncation and corruption faults, and the deobfuscated bodies - is handed to the
+// library's public decoders.
+func (s *sched) runTap() {
+	budget := 400
+	seen := map[string]bool{}
+	feed := func(b []byte) {
+		if budget <= 0 || seen[string(b)] {
+			return
+		}
+		seen[string(b)] = true
+		budget--
+		s.res.TapInputs++
+		for _, f := range sut.TapDecode(b) {
+			s.w.Rec(world.Ev{Actor: "tap", Kind: "tap-finding", S: f.Class + "|" + f.Sub + "|" + f.Detail})
+		}
+	}
+	for ci, c := range s.clis {
+		if !c.dialed {
+			continue
+		}
+		// client -> server stream as written, cut at every delivery boundary
+		var stream []byte
+		for _, op := range c.spec.Ops {
+			switch op.Kind {
+			case "send":
+				if !c.spec.Real {
+					w := op.Pkt.Wire(c.spec.Key)
+					feed(w)
+					if len(w) >= model.HeaderLen {
+						feed(w[:model.HeaderLen])
+						body := op.Pkt.Body.Encode()
+						feed(body)
+						srvKey := c.spec.SrvKey
+						h, _ := model.DecodeHeader(w)
+						if len(w) > model.HeaderLen {
+							feed(model.Obfuscate(h, srvKey, w[model.HeaderLen:]))
+						}
+					}
+					stream = append(stream, w...)
+				}
+			case "raw":
+				feed(op.Raw)
+				stream = append(stream, op.Raw...)
+			}
+		}
+		cum := 0
+		for _, e := range s.w.Events {
+			if e.Conn == ci+1 && e.Kind == "deliver" {
+				cum += int(e.A)
+				if cum <= len(stream) {
+					// the partial packet that exists at this segment boundary
+					start := 0
+					for start+model.HeaderLen <= cum {
+						h, _ := model.DecodeHeader(stream[start:])
+						if h.Length > model.MaxBody || start+model.HeaderLen+int(h.Length) > cum {
+							break
+						}
+						start += model.HeaderLen + int(h.Length)
+					}
+					feed(stream[start:cum])
+				}
+			}
+		}
+		// server -> client packets
+		for _, rp := range s.res.Replies[ci+1] {
+			feed(append(rp.H.Encode(), rp.Body...))
+			feed(model.Obfuscate(rp.H, c.spec.SrvKey, rp.Body))
+		}
+	}
+	for _, e := range s.w.Events {
+		if e.Kind == "msrv-recv" || e.Kind == "msrv-send" {
+			feed(e.Bytes)
+		}
 	}
 }
 
@@ -374,8 +457,20 @@ func (s *sched) loop() {
 			synctest.Wait()
 			continue
 		}
+		var m0 runtime.MemStats
+		measure := s.p.Property == "C04" || s.p.Property == "C05"
+		if measure {
+			runtime.ReadMemStats(&m0)
+		}
 		s.apply(s.pick(ev))
 		synctest.Wait()
+		if measure {
+			var m1 runtime.MemStats
+			runtime.ReadMemStats(&m1)
+			if d := int64(m1.TotalAlloc - m0.TotalAlloc); d > 1<<20 {
+				s.w.Rec(world.Ev{Actor: "sched", Kind: "alloc", A: d})
+			}
+		}
 	}
 }
 
